@@ -110,6 +110,8 @@ def header_case(ctx, rng):
     if stmts_in and not ns and phys != 3 and (logical in FLAT or logical == 0) and rng.random() < .5:
         # the caller's options handed to the flat convenience entry points instead of a stream object
         cfg["entry"] = rng.choice(["flat_frames", "flat_to_file"] if delimited else ["flat_frames"])
+    if stmts_in and integ == "rdflib" and not ns and rng.random() < .25:
+        cfg["entry"] = "graph_serialize_stream_only"        # Graph/Dataset.serialize(format='jelly', stream=<stream>) and nothing else
     ctx.observe(f"header-entry:{cfg['entry']}")
     try:
         if ns:
